@@ -12,4 +12,7 @@ var props = map[string]propCfg{
 	"C15": {Pkg: "./props/unit", Test: "TestC15",
 		Quick:    tierCfg{Cases: 20000, Shards: 1, Timeout: 5 * min, ShrinkTime: 20 * sec},
 		Thorough: tierCfg{Cases: 2000000, Shards: 16, Timeout: 30 * min, ShrinkTime: 60 * sec}},
+	"C17": {Pkg: "./props/unit", Test: "TestC17",
+		Quick:    tierCfg{Cases: 6000, Shards: 2, Timeout: 5 * min, ShrinkTime: 20 * sec},
+		Thorough: tierCfg{Cases: 480000, Shards: 16, Timeout: 40 * min, ShrinkTime: 60 * sec}},
 }
